@@ -17,6 +17,10 @@ A *scenario* is a JSON-able dict
      "trigger_path": path,                                        # optional (max_requests): the request whose scope IS the trigger
      "late_tolerance": seconds,                                   # optional: record `harness_late` when a timed step of the harness
                                                                   # itself starts later than this (loaded machine)
+     "clock_anchor": "ls_start",                                  # optional: like start_when_listening, but the clock starts when the
+                                                                  # lifespan application is entered (script time 0): for scenarios
+                                                                  # whose clients must arrive before / during start-up.  A client
+                                                                  # with `"ungated": true` does not wait for the anchor.
      "start_when_listening": bool}                                # optional: the scenario clock (clients, trigger, observe_until)
                                                                   # starts when the worker logs `Running on …` (start-up itself is
                                                                   # not the subject: a slow start on a loaded machine shifts nothing)
@@ -56,6 +60,7 @@ class Recorder:
         self.counts: Dict[str, int] = {}          # events per kind (the trigger / client steps can wait for the application)
         self.trigger_t: Optional[float] = None    # instant shutdown was triggered (harness trigger, or the `trigger_path` scope)
         self.late_tol: Optional[float] = None     # when set: a timed step that starts later than this is recorded (`harness_late`)
+        self.anchored = True                      # False while the scenario clock still waits for its anchor event
 
     def now(self) -> float:
         return time.monotonic() - self.t0
@@ -64,6 +69,9 @@ class Recorder:
         with self.lock:
             self.events.append([len(self.events), round(self.now(), 4), kind, data])
             self.counts[kind] = self.counts.get(kind, 0) + 1
+            if kind == "scope" and "path" in data:       # `wait_counts` can wait for one particular request to have started
+                k2 = "scope:" + str(data["path"])
+                self.counts[k2] = self.counts.get(k2, 0) + 1
 
     def count(self, kind: str) -> int:
         with self.lock:
@@ -75,7 +83,7 @@ class Recorder:
 
     def late(self, what: str, by: float, **data: Any) -> None:
         """the harness itself was late (a loaded machine): the scenario as run is not the scenario as written"""
-        if self.late_tol is not None and by > self.late_tol:
+        if self.late_tol is not None and self.anchored and by > self.late_tol:
             self.add("harness_late", what=what, by=round(by, 4), **data)
 
     def wait_counts(self, want: Dict[str, int], timeout: float, stop: Optional[threading.Event] = None) -> float:
@@ -95,6 +103,7 @@ class Recorder:
             self.t0 += delta
             for e in self.events:
                 e[1] = round(e[1] - delta, 4)
+            self.anchored = True
 
     def sleep_until(self, t: float, stop: Optional[threading.Event] = None) -> None:
         while True:
@@ -125,11 +134,13 @@ def _jsonable_state(d: Any) -> Dict[str, Any]:
     return {str(k): (v if isinstance(v, (str, int, float, bool, type(None))) else repr(v)) for k, v in dict(d).items()}
 
 
-def make_app(rec: Recorder, sc: dict) -> Callable:
+def make_app(rec: Recorder, sc: dict, on_ls_start: Optional[Callable[[], None]] = None) -> Callable:
     script = list(sc["lifespan"])
     await_s = float(sc.get("await_s", 0.15))
 
     async def lifespan(scope, receive, send) -> None:
+        if on_ls_start is not None:
+            on_ls_start()
         rec.add("ls_start")
         scope["state"]["boot"] = "L"
         pending: Optional[BaseException] = None
@@ -251,8 +262,10 @@ def make_logger_class(rec: Recorder, on_listening: Optional[Callable[[], None]] 
                 message = message % a if a else message
             except Exception:
                 pass
-            if on_listening is not None and str(message).startswith("Running on"):
-                on_listening()
+            if str(message).startswith("Running on"):
+                if on_listening is not None:
+                    on_listening()
+                rec.add("listening")
             rec.add("log", level=level, message=str(message)[:120])
 
         async def critical(self, message, *a, **k): await self._rec("critical", message, *a)
@@ -632,8 +645,12 @@ def run_scenario(sc: dict, shared: Optional[dict] = None) -> dict:
     from hypercorn.config import Config, Sockets
 
     rec = Recorder()
-    gate = bool(sc.get("start_when_listening"))
-    listening = threading.Event()        # set at once unless the scenario clock is to start with the listener
+    anchor = sc.get("clock_anchor") or ("listening" if sc.get("start_when_listening") else None)
+    if anchor not in (None, "listening", "ls_start"):
+        raise HarnessFailure(f"unknown clock_anchor {anchor}")
+    gate = anchor is not None
+    rec.anchored = not gate
+    listening = threading.Event()        # "the anchor event has happened" (the listener exists / the lifespan application is entered)
 
     def on_listening() -> None:
         if not listening.is_set():
@@ -643,7 +660,7 @@ def run_scenario(sc: dict, shared: Optional[dict] = None) -> dict:
     config = Config()
     config.accesslog = None
     config.errorlog = None
-    config.logger_class = make_logger_class(rec, on_listening if gate else None)
+    config.logger_class = make_logger_class(rec, on_listening if anchor == "listening" else None)
     config.keep_alive_timeout = 30
     for k, v in sc.get("config", {}).items():
         setattr(config, k, v)
@@ -671,7 +688,7 @@ def run_scenario(sc: dict, shared: Optional[dict] = None) -> dict:
         sock.listen(100)                      # as `trio_worker` does before calling worker_serve
     port = sock.getsockname()[1]
     sockets = Sockets([], [sock], [])
-    app = ASGIWrapper(make_app(rec, sc))
+    app = ASGIWrapper(make_app(rec, sc, on_listening if anchor == "ls_start" else None))
     fire = threading.Event()
     stop = threading.Event()
     observe_until = float(sc["observe_until"])
@@ -703,7 +720,8 @@ def run_scenario(sc: dict, shared: Optional[dict] = None) -> dict:
 
     clients = [CLIENTS[c["kind"]](rec, port, c, stop) for c in sc.get("clients", [])]
     for c in clients:
-        c.gate = wait_listening
+        if not c.spec.get("ungated"):
+            c.gate = wait_listening
     tt = threading.Thread(target=trigger_thread, daemon=True)
 
     if sc["worker"] == "asyncio":
@@ -902,6 +920,35 @@ def run_many(scenarios: List[dict], procs: int = 12, timeout: float = 40.0) -> L
 # --------------------------------------------------------------------------------------------------------------
 # helpers shared by the C14 / C15 generators
 # --------------------------------------------------------------------------------------------------------------
+def parallelism(most: int) -> int:
+    """scenario processes side by side: what the machine has to spare right now (the verdict does not depend on it)"""
+    try:
+        spare = (os.cpu_count() or 4) - os.getloadavg()[0]
+    except OSError:
+        spare = most
+    return max(1, min(most, max(4, int(spare))))
+
+
+def run_disciplined(ctx: Any, scs: List[dict], procs: int, timeout: float = 40.0) -> List[dict]:
+    """`run_many` with the timing discipline of the real-clock scenarios: a run in which the harness itself was late (a client
+    step, the trigger, or the application had not reached the phase the scenario names when a step that needs it was due: a busy
+    machine) is not the scenario as written.  Such runs (scenarios with `late_tolerance`, events `harness_late`) are repeated with
+    less running beside them, at most twice - a decision taken on the harness's own lateness records only, before and independent
+    of any monitor; the last observation is judged whatever its timing."""
+    obs = run_many(scs, procs=parallelism(procs), timeout=timeout)
+    for attempt, width in ((1, 4), (2, 1)):
+        again = [i for i, o in enumerate(obs) if events_of(o, "harness_late")]
+        if not again:
+            break
+        ctx.count("repeated_for_harness_lateness", f"attempt {attempt}", len(again))
+        for i, o in zip(again, run_many([scs[i] for i in again], procs=min(width, max(1, procs)), timeout=timeout)):
+            obs[i] = o
+    left = sum(1 for o in obs if events_of(o, "harness_late"))
+    if left:
+        ctx.count("judged_despite_harness_lateness", "scenarios", left)
+    return obs
+
+
 def events_of(obs: dict, kind: str, **match: Any) -> List[list]:
     return [e for e in obs["events"] if e[2] == kind and all(e[3].get(k) == v for k, v in match.items())]
 
